@@ -417,8 +417,21 @@ def check_seed(ctx):
            '; '.join('%s is written by %s() but not reset by mt_seed: it survives re-seeding' % (v, state[v]) for v in missing) or 'state variables: %s' % sorted(state))
     f = ctx.fn('random:seed_random')
     s = f.args.args[0].arg
-    ifs = [x for x in f.body if isinstance(x, ast.If)]
-    ok = len(ifs) == 1 and src(ifs[0].test).replace(' ', '') == '%s==0' % s and [util.stmt_key(x) for x in ifs[0].orelse] == ['mt_seed(%s)' % s]
+    # on every path on which the seed is not 0, the generator is seeded exactly once, with the seed itself
+    ok = True
+    n_nonzero = 0
+    for p_ in paths.Enumerator().run(f.body, paths.State()):
+        tests = {util.canon_test(e.node).replace(' ', ''): e.info for e in p_.events if e.kind == 'test'}
+        zero = tests.get('0==%s' % s, tests.get('%s==0' % s))
+        if zero is None and ('0!=%s' % s in tests or '%s!=0' % s in tests):
+            zero = not tests.get('0!=%s' % s, tests.get('%s!=0' % s))
+        calls = [src(c).replace(' ', '') for e in p_.stmts() for c in paths.stmt_calls(e.node, 'mt_seed')]
+        if zero is None:
+            ok = False
+        elif not zero:
+            n_nonzero += 1
+            ok = ok and calls == ['mt_seed(%s)' % s]
+    ok = ok and n_nonzero >= 1
     ctx.ob('R8.5-seed', 'seed_random', ok, ctx.loc('random', f), 'a non-zero seed reaches mt_seed unchanged', '')
     f = ctx.fn('random:py_seed_random')
     ok = [util.stmt_key(x) for x in f.body] == ['seed_random(%s)' % f.args.args[0].arg]
@@ -486,14 +499,16 @@ def check_pure_evaluation(ctx):
                         while isinstance(base, ast.Subscript):
                             base = base.value
                         if isinstance(base, ast.Attribute) and src(base).startswith('self.'):
-                            bad.append('%s.%s assigns %s (%s)' % (cls, mname, src(t), prog.where(ci.module, node)))
+                            why = util.complete_memo(fn, node)
+                            if why is not None:
+                                bad.append('%s.%s assigns %s (%s): %s' % (cls, mname, src(t), prog.where(ci.module, node), why))
                 if isinstance(node, ast.Global):
                     bad.append('%s.%s declares global %s' % (cls, mname, ', '.join(node.names)))
     if n < 40:
         raise AnalysisError('anchor vanished: only %d evaluation methods found' % n)
     ctx.ob('R8.7-pure-evaluation', 'methods', not bad, 'bioscrape/types.pyx, lineage/lineage.pyx',
            'no evaluation method of a propensity, expression node, delay, rule or volume model assigns an attribute of its object or a global '
-           '(%d methods scanned)' % n, '; '.join(bad[:4]))
+           '(%d methods scanned) - except a memo whose guard compares every input the memoised value depends on' % n, '; '.join(bad[:3]))
     # the model's read accessors (species order, indices, values, dictionaries) answer from the definition as it is now: they keep
     # nothing that a later edit could leave stale
     stale = []
@@ -534,11 +549,37 @@ def check_pure_evaluation(ctx):
                 while fn is not None and not isinstance(fn, ast.FunctionDef):
                     fn = getattr(fn, '_parent', None)
                 g.append('%s: %s declares global %s (%s)' % (m, fn.name if fn else '<module>', ', '.join(node.names), prog.where(m, node)))
+    # module-level containers that functions fill in (a memo dictionary needs no `global` statement)
+    for m in ('types', 'simulator', 'lineage', 'random'):
+        tree = prog.mod(m).tree
+        containers = {}
+        for st in tree.body:
+            if isinstance(st, ast.Assign) and len(st.targets) == 1 and isinstance(st.targets[0], ast.Name):
+                v = st.value
+                if isinstance(v, (ast.Dict, ast.List, ast.Set)) or (isinstance(v, ast.Call) and src(v.func).split('.')[-1] in
+                                                                  ('dict', 'list', 'set', 'OrderedDict', 'defaultdict', 'WeakValueDictionary', 'WeakKeyDictionary')):
+                    containers[st.targets[0].id] = st
+        for fn_ in [x for x in ast.walk(tree) if isinstance(x, ast.FunctionDef)]:
+            for node in ast.walk(fn_):
+                hit = None
+                if isinstance(node, (ast.Assign, ast.AugAssign)):
+                    for t in (node.targets if isinstance(node, ast.Assign) else [node.target]):
+                        b = t
+                        while isinstance(b, ast.Subscript):
+                            b = b.value
+                        if isinstance(t, ast.Subscript) and isinstance(b, ast.Name) and b.id in containers:
+                            hit = b.id
+                if isinstance(node, ast.Call) and isinstance(node.func, ast.Attribute) and isinstance(node.func.value, ast.Name) \
+                        and node.func.value.id in containers and node.func.attr in ('append', 'update', 'setdefault', 'add', 'pop', 'clear', 'extend', 'insert', 'popitem', 'remove'):
+                    hit = node.func.value.id
+                if hit:
+                    g.append('%s: %s() fills the module-level container %s (%s)' % (m, fn_.name, hit, prog.where(m, node)))
     seen = any(isinstance(node, ast.Global) for node in ast.walk(prog.mod('simulator').tree))
     if not seen:
         raise AnalysisError('global-statement scanner lost its positive example (simulator.pyx)')
-    ctx.ob('R8.7-pure-evaluation', 'module-state', not g, 'bioscrape/types.pyx',
-           'the module that defines models, rate laws and rules keeps no module-level variable that functions assign', '; '.join(g[:3]))
+    ctx.ob('R8.7-pure-evaluation', 'module-state', not g, 'bioscrape/types.pyx (+ simulator, lineage, random for containers)',
+           'types.pyx declares no global that functions assign, and no function of the simulation modules fills a module-level container '
+           '(nothing survives from one model or run to the next outside the objects themselves)', '; '.join(sorted(set(g))[:3]))
 
 
 def check_globals(ctx, f):
